@@ -74,10 +74,15 @@ pub fn render(doc: &Doc, fmt: &Fmt, comments: bool, nq_graphs: bool, lists: bool
         }
         Fmt::RdfXml => {
             out.push_str("<?xml version=\"1.0\"?>\n<rdf:RDF xmlns:rdf=\"http://www.w3.org/1999/02/22-rdf-syntax-ns#\" xmlns:e=\"http://e/\">\n");
-            for (s, p, o) in &doc.triples {
-                out.push_str(&format!("  <rdf:Description rdf:about=\"{}\">\n", canon(s)));
-                match o { LT::Iri(n) => out.push_str(&format!("    <e:p{} rdf:resource=\"http://e/n{}\"/>\n", p, n)), x => out.push_str(&format!("    <e:p{}>{}</e:p{}>\n", p, canon(x).replace('&', "&amp;").replace('<', "&lt;"), p)) }
+            // with `lists`, consecutive triples of one subject share one rdf:Description element
+            let mut i = 0;
+            while i < doc.triples.len() {
+                let s0 = &doc.triples[i].0;
+                let mut j = i + 1; if lists { while j < doc.triples.len() && j < i + 4 && &doc.triples[j].0 == s0 { j += 1; } }
+                out.push_str(&format!("  <rdf:Description rdf:about=\"{}\">\n", canon(s0)));
+                for (_, p, o) in &doc.triples[i..j] { match o { LT::Iri(n) => out.push_str(&format!("    <e:p{} rdf:resource=\"http://e/n{}\"/>\n", p, n)), x => out.push_str(&format!("    <e:p{}>{}</e:p{}>\n", p, canon(x).replace('&', "&amp;").replace('<', "&lt;"), p)) } }
                 out.push_str("  </rdf:Description>\n");
+                i = j;
             }
             out.push_str("</rdf:RDF>\n");
         }
@@ -129,7 +134,7 @@ impl Prop for C13 {
     fn gen(&self, seed: u64, _i: u64, _t: Tier) -> LoadCase {
         let mut r = Rng::sub(seed, "workload"); let mut cfg = Rng::sub(seed, "swarm");
         let size_class = cfg.below(10);
-        let n = match size_class { 0 => *r.pick(&[999usize, 1000, 1001, 1999, 2000, 2001, 2500]), 1 => 990 + r.usize(30), 2 if cfg.chance(1, 4) => *r.pick(&[8191usize, 8192, 8193]), _ => 1 + r.usize(60) };
+        let n = match size_class { 0 => *r.pick(&[999usize, 1000, 1001, 1999, 2000, 2001, 2500]), 1 => 990 + r.usize(30), 2 if cfg.chance(1, 2) => *r.pick(&[8191usize, 8192, 8193, 16384, 16385]), _ => 1 + r.usize(60) };
         let big = n > 200;
         let vocab = if big { (n as u64) * 2 } else { 12 };
         let term = |r: &mut Rng, obj: bool| -> LT { match r.below(10) { 0 | 1 if obj => LT::Lit(r.below(vocab) as u32), 2 if obj => LT::EscLit(r.below(5) as u32), 3 => LT::Bn(r.below(6) as u32), _ => LT::Iri(r.below(vocab) as u32) } };
@@ -138,7 +143,7 @@ impl Prop for C13 {
         let prior_kind = cfg.below(3);
         let prior: Vec<(LT, u32, LT, Option<u32>)> = if prior_kind == 0 { vec![] } else { (0..(1 + r.usize(12))).map(|_| (LT::Iri(r.below(vocab + 5) as u32), r.below(5) as u32, term(&mut r, true), if r.chance(1, 3) { Some(r.below(3) as u32) } else { None })).collect() };
         let all = [Fmt::NTriples, Fmt::NQuads, Fmt::Turtle, Fmt::N3, Fmt::RdfXml];
-        let formats: Vec<Fmt> = if big { vec![r.pick(&all).clone(), r.pick(&all).clone()] } else { all.to_vec() };
+        let formats: Vec<Fmt> = if n >= 8000 { vec![Fmt::RdfXml, r.pick(&all).clone()] } else if big { vec![r.pick(&all).clone(), r.pick(&all).clone()] } else { all.to_vec() };
         LoadCase { hash_seed: Rng::sub(seed, "hash").next(), pool: *cfg.pick(&[1, 2, 3, 4, 8, 16]), rayon_seed: Rng::sub(seed, "rayon").next(), cpus: 1 + cfg.below(16) as i64, shuttle_seed: Rng::sub(seed, "shuttle").next(),
             prior, prior_terms: if prior_kind == 2 { r.below(40) as u32 } else { 0 }, doc: Doc { triples, seed: r.next() }, formats, twice: cfg.chance(1, 4), comments: cfg.chance(1, 2), n3_literals: cfg.chance(1, 10), nq_graphs: cfg.chance(1, 2), lists: cfg.chance(1, 3) }
     }
